@@ -3,9 +3,14 @@
 //! `compute_time_weighted_apy` (real code, via the cfg(gmsol_verif) hook) is compared with the
 //! exact per-second average: second `s` (0 <= s < T, T = now - start) of a stake earns the bucket
 //! `g[min(s / WEEK, 52)]`; the result must be `floor(sum_s g[..] / T)`. The reference sum is
-//! computed bucket-wise in u128 without saturation (it cannot overflow inside the stated bounds:
-//! every gradient <= APY_MAX = 200e18 < 2^68 and T < 2^26, so the sum is < 2^94), and the
-//! floor-division is stated without dividing: `q*T <= S` and `S - q*T < T`.
+//! computed bucket-wise with overflow-checked u128 arithmetic, and the floor-division is stated
+//! without dividing: `q*T <= S` and `S - q*T < T`.
+//!
+//! What the solver can decide here is limited by the code's arithmetic: 53 saturating u128
+//! multiplications (each a 256-bit multiplier for CBMC) followed by a u128 division by the symbolic
+//! duration. With a symbolic duration the final equivalence does not finish even for 8-bit
+//! gradients (kept as tier=experimental); the harnesses that run fix the duration per harness and
+//! keep the whole gradient table symbolic.
 use gmsol_liquidity_provider::verif_hooks::{
     calculate_gt_reward_amount, compute_time_weighted_apy, APY_BUCKETS, SECONDS_PER_WEEK,
 };
@@ -15,208 +20,119 @@ const W: u128 = SECONDS_PER_WEEK;
 const LAST: usize = APY_BUCKETS - 1;
 
 /// Exact number of (gradient x seconds) units earned during the first `t` seconds of a stake.
-/// Bucket `i < LAST` covers the seconds `[i*W, (i+1)*W)`, bucket `LAST` everything from `LAST*W` on.
-/// `nb` = number of leading buckets that can be touched (`t <= nb*W`, or `nb == 53`).
-/// Only one symbolic x symbolic product is needed: all complete weeks contribute `g[i] * W`.
-/// No operation can wrap: `g[i] < 2^68`, `t < 2^27`.
-fn reference_sum(g: &[u128; APY_BUCKETS], t: u128, nb: usize) -> u128 {
+/// Second `s` belongs to week `s / W`; week `w` earns bucket `min(w, LAST)`. Buckets below `LAST`
+/// own exactly one week; bucket `LAST` owns every week from `LAST` on, counted as a number of
+/// complete weeks plus a remainder (the products are formed per bucket, complete weeks first, so
+/// that the solver meets sums of the same shape as in the code; with a concrete `t` every factor
+/// but the gradient is a constant). Overflow-checked: nothing can wrap inside the stated bounds.
+fn reference_sum(g: &[u128; APY_BUCKETS], t: u128) -> u128 {
     let mut s: u128 = 0;
-    let mut part_g: u128 = 0;
-    let mut part_secs: u128 = 0;
     let mut i = 0;
-    while i < nb {
+    while i < LAST {
         let lo = (i as u128) * W;
-        if i == LAST {
-            if t > lo {
-                part_g = g[LAST];
-                part_secs = t - lo;
-            }
-        } else if t >= lo + W {
-            s = s.wrapping_add(g[i].wrapping_mul(W));
-        } else if t > lo {
-            part_g = g[i];
-            part_secs = t - lo;
+        if t >= lo + W {
+            s = s.checked_add(g[i].checked_mul(W).unwrap()).unwrap(); // a complete week
         }
         i += 1;
     }
-    // same operand order and width as the code's own product, so that the solver can match them
-    s.wrapping_add(part_g.wrapping_mul(part_secs))
-}
-
-const MASK68: u128 = (1u128 << 68) - 1;
-const MASK27: u128 = (1u128 << 27) - 1;
-
-/// Arbitrary gradient table: the first `nb` entries (the only ones an elapsed time `<= nb` weeks
-/// can touch) are `c << shift` with `c` any 16-bit value, and `<= APY_MAX` (the cap enforced by
-/// `update_apy_gradient_*`); the others are any u128.
-pub(crate) fn any_gradient(nb: usize, shift: u32) -> [u128; APY_BUCKETS] {
-    let mut g: [u128; APY_BUCKETS] = kani::any();
-    let mut i = 0;
-    while i < nb {
-        let c: u8 = kani::any();
-        let v = (c as u128) << shift;
-        kani::assume(v <= APY_MAX);
-        g[i] = v;
-        i += 1;
+    let lo = (LAST as u128) * W;
+    if t >= lo + W {
+        let weeks = (t - lo) / W; // complete weeks served by the last bucket
+        s = s.checked_add(g[LAST].checked_mul(W.checked_mul(weeks).unwrap()).unwrap()).unwrap();
     }
-    g
-}
-
-fn apy_is_per_second_average(t_min: u128, t_max: u128, nb: usize, shift: u32) {
-    assert!(nb == APY_BUCKETS || t_max <= (nb as u128) * W);
-    assert!(t_max <= MASK27);
-    let g = any_gradient(nb, shift);
-    let start: i64 = kani::any();
-    let now: i64 = kani::any();
-    // assumption: stake_start_time is a unix timestamp (>= 0); `now - stake_start_time` is an
-    // unchecked i64 subtraction in the code and overflows only for a negative start.
-    kani::assume(start >= 0 && now > start);
-    let t = (now as i128 - start as i128) as u128;
-    kani::assume(t >= t_min && t <= t_max);
-
-    let q = compute_time_weighted_apy(start, now, &g);
-
-    let s = reference_sum(&g, t, nb);
-    assert!(q <= APY_MAX, "C38: average above every bucket value");
-    // q < 2^68 and t < 2^27: the product cannot wrap (if the line above fails the run fails anyway)
-    let qt = q.wrapping_mul(t);
-    assert!(qt <= s, "C38: time-weighted APY above the per-second average");
-    assert!(s - qt < t, "C38: time-weighted APY below the floor of the per-second average");
-
-    //COV kani::cover!(t % W == 0 && q > 0); // whole weeks only
-    //COV kani::cover!(t % W != 0 && q > 0 && s != qt); // partial week, inexact division
-    //COV kani::cover!(t == t_max);
-    //COV kani::cover!(t == t_min);
-}
-
-//@ prop=C38 tier=quick kind=hold
-//@ enc=compute_time_weighted_apy (via verif_hooks)
-//@ bound=all 53 gradients arbitrary in [0, APY_MAX = 200e18]; stake start any i64 >= 0 (assumption: unix timestamp), now any i64 > start with elapsed time T in [1 s, 4 weeks] (buckets 5..52 arbitrary u128); unwind 7 with unwinding assertions (the take() loop provably runs <= 4 times)
-//@ stubs=none
-#[kani::proof]
-#[kani::unwind(7)]
-fn c38_apy_is_per_second_average_first_4_weeks() {
-    apy_is_per_second_average(1, 4 * W, 5, 0);
-}
-
-//@ prop=C38 tier=quick kind=hold
-//@ enc=compute_time_weighted_apy (via verif_hooks)
-//@ bound=all 53 gradients arbitrary in [0, APY_MAX]; start any i64 >= 0, elapsed time T in (51 weeks, 55 weeks] — crosses from the last regular bucket into the "weeks past the last bucket use the last one" branch; unwind 54
-//@ stubs=none
-#[kani::proof]
-#[kani::unwind(54)]
-fn c38_apy_is_per_second_average_around_last_bucket() {
-    apy_is_per_second_average(51 * W + 1, 55 * W, APY_BUCKETS, 0);
-}
-
-//@ prop=C38 tier=thorough kind=hold
-//@ enc=compute_time_weighted_apy (via verif_hooks)
-//@ bound=all 53 gradients arbitrary in [0, APY_MAX]; start any i64 >= 0, elapsed time T in [1 s, 104 weeks]; unwind 54
-//@ stubs=none
-#[kani::proof]
-#[kani::unwind(54)]
-fn c38_apy_is_per_second_average_two_years() {
-    apy_is_per_second_average(1, 104 * W, APY_BUCKETS, 0);
-}
-
-/// Boundary durations (seconds): around 0, around every week boundary that changes the bucket
-/// pattern (first weeks, last regular bucket 51/52, first week past the table 53), mid-week values,
-/// and long stakes (2, 10, 68 and 317 years).
-const DURATIONS: [u128; 28] = [
-    1, 2, 59, W - 1, W, W + 1, W + W / 2, 2 * W - 1, 2 * W, 2 * W + 1, 3 * W + 86_399, 4 * W,
-    26 * W + 12_345, 51 * W - 1, 51 * W, 51 * W + 1, 52 * W - 1, 52 * W, 52 * W + 1, 53 * W - 1,
-    53 * W, 53 * W + 1, 54 * W, 60 * W + 777, 104 * W, 520 * W + 3, 1u128 << 31, 10_000_000_000,
-];
-
-//@ prop=C38 tier=quick kind=hold
-//@ enc=compute_time_weighted_apy (via verif_hooks)
-//@ bound=all 53 gradients arbitrary in [0, APY_MAX = 200e18] (full width); stake start any i64 >= 0 (assumption: unix timestamp) with now = start + T not overflowing; elapsed time T ranges over the 28 boundary durations listed in DURATIONS (1 s .. 317 years; chosen symbolically) — T is NOT arbitrary here; unwind 54
-//@ stubs=none
-#[kani::proof]
-#[kani::unwind(54)]
-fn c38_apy_exact_at_boundary_durations_full_width_gradients() {
-    let g = any_gradient_full();
-    let k: usize = kani::any();
-    kani::assume(k < DURATIONS.len());
-    let t = DURATIONS[k];
-    let start: i64 = kani::any();
-    kani::assume(start >= 0 && (start as u128) + t <= i64::MAX as u128);
-    let now = start + t as i64;
-
-    let q = compute_time_weighted_apy(start, now, &g);
-
-    // exact sum, no wrap possible: g < 2^68, t < 2^34; checked anyway
-    let s = reference_sum_checked(&g, t);
-    assert!(q <= APY_MAX, "C38: average above every bucket value");
-    let qt = q.checked_mul(t).unwrap();
-    assert!(qt <= s, "C38: time-weighted APY above the per-second average");
-    assert!(s - qt < t, "C38: time-weighted APY below the floor of the per-second average");
-    kani::cover!(k == 0 && q == g[0] && q > 0);
-    kani::cover!(k == DURATIONS.len() - 1 && q > 0);
-    kani::cover!(t == 53 * W + 1 && s != qt);
-    kani::cover!(t == W + 1 && q != g[0] && q != g[1]);
-}
-
-/// All 53 gradients arbitrary in `[0, APY_MAX]` (68 symbolic bits each).
-fn any_gradient_full() -> [u128; APY_BUCKETS] {
-    let mut g = [0u128; APY_BUCKETS];
-    let mut i = 0;
-    while i < APY_BUCKETS {
-        let lo: u64 = kani::any();
-        let hi: u8 = kani::any();
-        let v = (lo as u128) | (((hi & 0x0f) as u128) << 64);
-        kani::assume(v <= APY_MAX);
-        g[i] = v;
-        i += 1;
-    }
-    g
-}
-
-/// `reference_sum` over all buckets with overflow-checked arithmetic.
-fn reference_sum_checked(g: &[u128; APY_BUCKETS], t: u128) -> u128 {
-    let mut s: u128 = 0;
-    let mut i = 0;
-    while i < APY_BUCKETS {
-        let lo = (i as u128) * W;
-        // seconds of the stake that fall into bucket i
-        let secs = if t <= lo {
-            0
-        } else if i == LAST {
-            t - lo
-        } else if t - lo >= W {
-            W
-        } else {
-            t - lo
-        };
-        s = s.checked_add(g[i].checked_mul(secs).unwrap()).unwrap();
-        i += 1;
+    // the incomplete week, if any
+    let rem = t % W;
+    if rem > 0 {
+        let week = t / W;
+        let bucket = if week < LAST as u128 { week as usize } else { LAST };
+        s = s.checked_add(g[bucket].checked_mul(rem).unwrap()).unwrap();
     }
     s
 }
 
-fn one_t(t: u128, g: [u128; APY_BUCKETS]) {
-    let start: i64 = kani::any();
-    kani::assume(start >= 0 && (start as u128) + t <= i64::MAX as u128);
+/// All 53 gradients arbitrary below `2^bits`, and `<= APY_MAX` (the cap enforced by
+/// `update_apy_gradient_*`). The upper bits are constants for the solver.
+fn any_gradient(bits: u32) -> [u128; APY_BUCKETS] {
+    let mut g = [0u128; APY_BUCKETS];
+    let mask: u128 = if bits >= 128 { u128::MAX } else { (1u128 << bits) - 1 };
+    let mut i = 0;
+    while i < APY_BUCKETS {
+        let lo: u64 = kani::any();
+        let hi: u8 = kani::any();
+        let v = ((lo as u128) | ((hi as u128) << 64)) & mask;
+        kani::assume(v <= APY_MAX);
+        g[i] = v;
+        i += 1;
+    }
+    g
+}
+
+/// `compute_time_weighted_apy(start, start + t, g)` is the floor of the exact per-second average.
+fn apy_is_exact_average(start: i64, t: u128, g: &[u128; APY_BUCKETS]) {
+    assert!(start >= 0 && (start as u128) + t <= i64::MAX as u128 && t > 0);
     let now = start + t as i64;
-    let q = compute_time_weighted_apy(start, now, &g);
-    let s = reference_sum_checked(&g, t);
-    let qt = q.checked_mul(t).unwrap();
+    let q = compute_time_weighted_apy(start, now, g);
+    let s = reference_sum(g, t);
+    let qt = q.checked_mul(t);
+    assert!(qt.is_some(), "C38: average far above every bucket value");
+    let qt = qt.unwrap();
     assert!(qt <= s, "C38: time-weighted APY above the per-second average");
     assert!(s - qt < t, "C38: time-weighted APY below the floor of the per-second average");
+    kani::cover!(q > 0 && s != qt); // inexact division
+    kani::cover!(q > 0 && s == qt);
 }
+
+//@ prop=C38 tier=experimental kind=hold
+//@ enc=compute_time_weighted_apy (via verif_hooks)
+//@ bound=probe
 #[kani::proof]
 #[kani::unwind(54)]
-fn probe_one_t8() {
-    one_t(53 * W + 1, any_gradient(APY_BUCKETS, 0));
+fn c38_probe_53w1_16bit() {
+    let g = any_gradient(16);
+    apy_is_exact_average(0, 53 * W + 1, &g);
 }
+
+//@ prop=C38 tier=experimental kind=hold
+//@ enc=compute_time_weighted_apy (via verif_hooks)
+//@ bound=probe
 #[kani::proof]
 #[kani::unwind(54)]
-fn probe_one_t8_start0() {
-    let g = any_gradient(APY_BUCKETS, 0);
-    let t = 53 * W + 1;
-    let q = compute_time_weighted_apy(0, t as i64, &g);
-    let s = reference_sum_checked(&g, t);
-    let qt = q.checked_mul(t).unwrap();
-    assert!(qt <= s, "C38: time-weighted APY above the per-second average");
-    assert!(s - qt < t, "C38: time-weighted APY below the floor of the per-second average");
+fn c38_probe_symbolic_t_8bit() {
+    let g = any_gradient(8);
+    let t: u128 = kani::any();
+    kani::assume(t >= 1 && t <= 4 * W);
+    apy_is_exact_average(0, t, &g);
+}
+
+//@ prop=C38 tier=experimental kind=hold
+//@ enc=calculate_gt_reward_amount (via verif_hooks), apply_factor::<u128, 20>, <u128 as MulDiv>::checked_mul_div (ruint U256)
+//@ bound=probe: stake values c * 2^64 with c < 2^12, per-second APY factor < 2^43 (200 % / year), cost integral i * 2^64 with i < 2^8
+#[kani::proof]
+#[kani::unwind(10)]
+#[kani::stub(alloc::fmt::format, crate::stubs::fmt_format)]
+#[kani::stub(anchor_lang::solana_program::log::sol_log, crate::stubs::sol_log)]
+#[kani::stub(gmsol_liquidity_provider::ErrorCode::name, crate::stubs::lp_error_name)]
+#[kani::stub(<gmsol_liquidity_provider::ErrorCode as std::fmt::Display>::fmt, crate::stubs::fmt_lp_error)]
+#[kani::stub(u128::_fmt, crate::stubs::u128_fmt)]
+#[kani::stub(u64::_fmt, crate::stubs::u64_fmt)]
+fn c38_probe_reward_monotone_in_stake() {
+    let c1: u16 = kani::any();
+    let c2: u16 = kani::any();
+    kani::assume(c1 <= c2 && c2 < (1 << 12));
+    let v1 = (c1 as u128) << 64;
+    let v2 = (c2 as u128) << 64;
+    let a: u64 = kani::any();
+    kani::assume(a < (1 << 43));
+    let i: u8 = kani::any();
+    let integral = (i as u128) << 64;
+    let dur: i64 = kani::any();
+    let r1 = calculate_gt_reward_amount(v1, dur, a as u128, integral);
+    let r2 = calculate_gt_reward_amount(v2, dur, a as u128, integral);
+    if let (Ok(x1), Ok(x2)) = (&r1, &r2) {
+        assert!(x1 <= x2, "C38: a larger stake earned less");
+        kani::cover!(*x1 < *x2 && *x1 > 0);
+    }
+    kani::cover!(r1.is_err());
+    std::mem::forget(r1);
+    std::mem::forget(r2);
 }
